@@ -17,13 +17,14 @@ class Expected:
                  "positions", "root_keys", "merged_groups", "frag_applied",
                  "frag_rejected", "max_list", "root_spans", "arg_errors",
                  "uncalled", "divergent_groups", "enum_fields", "gen_sites",
-                 "lazy_failed")
+                 "lazy_failed", "invoked_defs")
 
     def __init__(self):
         self.data = None
         self.errors = []     # [{"path","kind","message","first","group","ext"}]
         self.resolved = []   # field paths that get field hooks, in order
         self.invoked = []    # field paths whose synthetic resolver body runs
+        self.invoked_defs = {}  # ... and their (type name, field name)
         self.crash = False   # an injected Boom lies on a resolved field
         self.positions = []  # [(path, "field"|"item")] fault candidates
         self.root_keys = []
@@ -163,6 +164,7 @@ class Model:
                                          None)
             return self.complete(fdef.type, raw, path, nodes, faultable=False)
         exp.invoked.append(path)
+        exp.invoked_defs[tuple(path)] = (tname, node.name)
         exp.positions.append((path, "field"))
         seq = None
         if serial:
